@@ -44,6 +44,9 @@ pub struct NetCfg {
     pub slow_ppm: u32,
     pub slow_extra_ms: (u64, u64),
     pub inbox_cap: usize,
+    /// extra one-way delay (ms) of datagrams a host sends to its own public address (a slow hairpin
+    /// through a router: the path a self-ping takes)
+    pub self_path_extra_ms: u64,
 }
 
 impl Default for NetCfg {
@@ -57,6 +60,7 @@ impl Default for NetCfg {
             slow_ppm: 0,
             slow_extra_ms: (600, 3000),
             inbox_cap: 1024,
+            self_path_extra_ms: 0,
         }
     }
 }
@@ -680,6 +684,9 @@ impl State {
         };
         let span = self.net.latency_max_us.saturating_sub(self.net.latency_min_us) + 1;
         let mut latency = (self.net.latency_min_us + pk("lat") % span) * 1000 + extra_delay;
+        if wire_src.ip() == dst.ip() {
+            latency += self.net.self_path_extra_ms * 1_000_000;
+        }
         let mut drop = (pk("drop") % 1_000_000) < self.net.drop_ppm as u64;
         if hairpin {
             self.stats.nat_drops += 1;
